@@ -6,7 +6,7 @@ Part 2 (generated): 2-3 threads with 1-2 sessions each under a deterministic han
 (actors, schedule) EVERY call index k is failed once.
 Oracle after each session end (however it ended) and at the very end: see RULE.
 """
-import os, shutil
+import os, re, shutil
 from vlib import c19_harness as H
 from vlib import faultdb
 from vlib.runner import Violation, chash
@@ -14,7 +14,8 @@ from vlib.runner import Violation, chash
 ID = 'C19'
 LEVEL = 'fault_enumeration'
 RULE = ('Part 1, complete grid: scripts of one session shape {read-only, optimistic write, immediate, serializable, '
-        'db_session(ddl=True) with DDL statements, db.drop_table/db.create_tables, raw db.get_connection()} x end {normal exit, '
+        'db_session(ddl=True) with DDL statements, db.drop_table/db.create_tables, raw db.get_connection(), one db_session '
+        'writing to two Database objects (either order, optimistic or immediate)} x end {normal exit, '
         'body raises, explicit rollback(), commit() followed by more work} x {connection already pooled, pool empty so that the '
         'session has to connect}; every call index k of the fault-free DB-API log (connect, cursor, execute, executemany, commit, '
         'rollback, close) is failed with OperationalError before the call, OperationalError after the call was performed and '
@@ -26,7 +27,8 @@ RULE = ('Part 1, complete grid: scripts of one session shape {read-only, optimis
         'index k is failed once. One evaluation = one (script or actors+schedule, fault plan). After each session end: neither '
         'provider lock is held by the ending thread (single-thread part: by anybody) and no lock was released by a non-holder; '
         'every connection the layer created in that thread is the pool\'s current connection and open, or was closed exactly '
-        'once, and none was used after close. At the end a write session in the same thread and one in a new thread must finish '
+        'once, and none was used after close (for every Database the script uses). At the end a write session over all '
+        'databases in the same thread and one in a new thread must finish '
         'without error and without waiting for a provider lock (the instrumented lock raises instead of waiting, so a hang is '
         'never judged by time). Non-trivial = the first fault was injected while provider.transaction_lock was held; distinct '
         'by hash of (script/actors, schedule, plan).')
@@ -41,7 +43,22 @@ ASSUMPTIONS = ['SQLite file database opened with timeout=0 (file-lock conflicts 
 SHARDS = {'quick': 4, 'thorough': 16}
 MIN_EVALS = {'quick': 3000, 'thorough': 12000}
 CLASS_FLOORS = {'nontrivial': 0.15, 'part:schedule': 0.05}
-EXCLUSIONS = {}
+
+
+def _exit_commit_leaves_caches_unreleased(case, message):
+    """open finding C19-exit-commit-stale-cache: `with db_session:` over two Database objects.  When the exit path fails after
+    at least one cache was committed -- commit() raises PartialCommitException because a non-primary COMMIT failed, or releasing
+    the first cache fails (its rollback()) -- DBSessionContextManager._commit_or_rollback leaves without releasing the other
+    caches: they stay alive in local.db2cache with their connection attached, and the next session of the thread that touches
+    that database inherits the stale cache (AssertionError in prepare_connection_for_query_execution)."""
+    sessions = list(case.get('script') or []) + [s for a in case.get('actors') or [] for s in a]
+    if not any(s.get('kind', '').startswith('multi') and s.get('end') in ('commit', 'commit_more') for s in sessions):
+        return False
+    m = re.search(r'\[sessions that ended with an error before: (.*?)\] calls:', message)
+    return bool(m) and 'AssertionError' in message and re.search(r'\(multi\w*, end=commit', m.group(1)) is not None
+
+
+EXCLUSIONS = {'exit_commit_leaves_caches_unreleased': _exit_commit_leaves_caches_unreleased}
 
 MANIFEST = {
     'text': 'Every DB-API call of every session shape (read-only, optimistic, immediate, serializable, ddl, raw connection; four '
@@ -78,6 +95,11 @@ def shapes():
                 continue
             for cold in (False, True):
                 out.append({'kind': kind, 'end': end, 'cold': cold})
+    for kind in H.MULTI_KINDS:                  # one db_session over two Database objects
+        for end in H.ENDS:
+            out.append({'kind': kind, 'end': end, 'cold': False})
+    out.append({'kind': 'multi', 'end': 'commit', 'cold': True})
+    out.append({'kind': 'multi', 'end': 'raise', 'cold': True})
     return out
 
 
@@ -145,7 +167,7 @@ def run(ctx):
 
     # ---------------- part 2: generated actors + schedules, every call index failed once
     from hypothesis import strategies as st
-    sess = st.fixed_dictionaries({'kind': st.sampled_from([k for k in H.KINDS if k != 'ddl_api']),
+    sess = st.fixed_dictionaries({'kind': st.sampled_from([k for k in H.KINDS if k != 'ddl_api'] + ['multi', 'multi_rev', 'multi_immediate']),
                                   'end': st.sampled_from(H.ENDS), 'cold': st.just(False)})
     actors = st.lists(st.lists(sess, min_size=1, max_size=2), min_size=2, max_size=3)
     schedule = st.lists(st.integers(0, 5), min_size=0, max_size=30)
